@@ -1,4 +1,15 @@
-"""C20 — path integrators, numerical gradient, climbing rate, string relaxation."""
+"""C20 — path integrators, numerical gradient, climbing rate, path objects, string relaxation.
+
+translate(): euler, rungekutta, the component formula and default shift of central_difference, rate and climbrate of
+ISMPath.step -> Lean definitions (Generated/Integrators.lean), re-proved on every run.
+correspond(): the generated definitions on exact inputs; central_difference on arrays of every leading shape; the
+control flow of relax with a scripted step; BasePath/ISMPath driven as a state machine (operation sequences on one
+object) against the Lean path object held by the stateful driver `drv_c20`.
+search(): the clauses on the real code with fractions.Fraction (no Lean): Taylor polynomials, error orders, input
+arrays untouched, exact gradient (+ c3 s^2) on arrays of every leading shape, the same operation sequences against
+the exact oracle of the tracked state and against a freshly built path, relaxation on the two-minimum family
+(minima, saddle, barrier; then the relaxed string loaded back into the path it came from).
+"""
 from __future__ import annotations
 
 import ast
@@ -16,11 +27,30 @@ THEOREMS = [
     'C20.cd_cubic', 'C20.cd_exact_quadratic', 'C20.cd_error_second_order',
     'C20.rate_zero_iff', 'C20.climb_fixed_point', 'C20.climb_reverses_tangential',
     'C20.phaseSteps_le', 'C20.climb_runs_when_requested', 'C20.phaseSteps_stops_at_first_small',
+    # the path object: reads are functions of the current field values (no hidden state)
+    'C20.run_eq_fields', 'C20.run_energyfxn', 'C20.gradEnergy_after_setCoord', 'C20.energy_after_setCoord',
+    'C20.gradEnergy_after_setKwargs', 'C20.gradEnergy_after_setGradientfxn',
+    # tangents, arc coordinates, force
+    'C20.unitOf_unit', 'C20.unitTangent_unit', 'C20.arccoord_length', 'C20.arccoord_head', 'C20.arccoord_mono',
+    'C20.force_zero_of_critical',
+    # images under a step: critical points are the fixed points; settings carried over
+    'C20.stepRow_euler_fixed_iff', 'C20.stepRow_rk_fixed_of_critical', 'C20.iterateRows_critical',
+    'C20.climbRow_euler_fixed_is_critical', 'C20.icoordPlain_length', 'C20.withCoord_fields',
+    # central_difference on arrays of points, default time step / tolerance
+    'C20.cdArray_length', 'C20.cdArray_getElem', 'C20.cdPoint_components_cubic',
+    'C20.defaultTimestep_pos', 'C20.defaultTimestep_le', 'C20.defaultTolerance_pos',
 ]
 PARTIAL = {
     'relaxation_converges_to_saddle': 'convergence of the iterated float/spline relaxation is not a '
-    'theorem about this code; stationary strings are proved critical (rate_zero_iff, climb_fixed_point) '
-    'and convergence is explored on the implementation',
+    'theorem about this code; stationary strings are proved critical (rate_zero_iff, climb_fixed_point, '
+    'stepRow_euler_fixed_iff, climbRow_euler_fixed_is_critical, iterateRows_critical) and convergence is explored '
+    'on the implementation against analytically known minima, saddle and barrier',
+    'step_interior_images': 'the cubic-spline re-spacing of the interior images of a step is scipy code outside the model: '
+    'the model gives the integrated coordinates and the rows the re-spacing must keep (first, last, climbing images; '
+    'the whole path for two images), compared on every step of the operation sequences',
+    'gradient_second_order_general': 'second order of the numerical gradient is proved for functions that are cubic '
+    'along the coordinate axes (exact error c3 s^2); for general smooth functions it is measured on the implementation '
+    '(error ratio on halving the step) on arrays of every leading shape',
 }
 GENERATED = ['Integrators']
 
@@ -1189,13 +1219,30 @@ def _cd_array_check(case, got, poly, want_flat=None):
 # correspondence: generated Lean definitions vs the real functions, same exact inputs
 # ----------------------------------------------------------------------------------------
 RULE = ('random dyadic matrices A (dim 1-6), vectors y, steps h for euler/rungekutta with rate A@y; separable cubic '
-        '+ bilinear test functions for central_difference; random gradients/tangents for the climbing rate; '
-        'distinct = distinct canonical input line; non-trivial = A, y non-zero and h != 0')
-ASSUMPTIONS = ['IEEE double rounding of the implementation is bounded by rtol 1e-9 on the generated inputs '
-               '(dyadic, |.|<=8, dim<=6)',
-               'numpy matmul/einsum compute the mathematical contraction',
+        '+ bilinear test functions for central_difference at single points and on coordinate arrays of leading shape '
+        '() (N,) (m,n) (k,m,n) (j,k,m,n), square and non-square, float and integer typed, array and nested list, explicit '
+        'and default shift; random gradients/tangents for the climbing rate; scripted relax control flow; operation sequences '
+        'on one path object: construct (create_path / ISMPath, every spelling of the options, 1-6 images in 1-4 dimensions, '
+        'integer or float images) then 3-8 of {coord = new images | one image moved | different image count; in-place '
+        'edit of one image; gradientfxn = ...; gradientkwargs changed in place; integratorfxn = ...; invalid assignments; '
+        'energy(coord) / grad_energy(coord) at other points; default_timestep/tolerance; step (with and without climbing '
+        'images, time step 1/8..1/2 of the stable limit 1/Lipschitz); relax(0-2, 0-1, tolerance 0)} each followed by a '
+        'read of coord, energy(), grad_energy(), arccoord, unittangent, force; stepping continues on the returned path '
+        'half of the time. Excluded: coincident consecutive images / cancelling unit differences (tangent 0/0), strings '
+        'that ran away (|coord| grew 100-fold: cubic energies are unbounded below), exact iterates above 40000 bits. '
+        'distinct = distinct canonical input line / (state, operation); non-trivial = A, y non-zero and h != 0, at least '
+        'two images')
+ASSUMPTIONS = ['IEEE double rounding of the implementation is bounded by rtol 1e-9 on the dyadic integrator inputs (|.|<=8, '
+               'dim<=6); for path objects by first-order bounds derived from the expression: 32 eps sum|terms of f| / shift '
+               'for a central difference, stages * (1 + h L)^(stages-1) * h * that for an integrator step, 1e3 eps max|coord| '
+               'for the spline evaluated at a knot',
+               'numpy matmul/einsum/linalg.norm compute the mathematical contraction / Euclidean norm',
+               'scipy CubicSpline interpolates its knots (ends and climbing images keep the integrator\'s coordinates); the '
+               're-spaced interior images are outside the model',
+               'the square root is a parameter of the model (hypothesis sqrt x * sqrt x = x); the driver uses a rational '
+               'square root accurate to 2^-64',
                'Real.exp is the flow of y\' = a y (Mathlib), used only in the two one-step error theorems']
-TRUSTED = ['numpy (rate function A@y, einsum) in the correspondence run']
+TRUSTED = ['numpy (rate function A@y, einsum, norm) and scipy CubicSpline at its knots in the correspondence run']
 
 
 def _np():
@@ -1601,11 +1648,15 @@ def replay(ctx, payload):
 MANIFEST = {
     'text': 'Euler/Runge-Kutta/central-difference/climbing-rate definitions are regenerated from the Python source on '
             'every run and the theorems (degree-1/degree-4 Taylor polynomial of exp(hA) for every linear map over every '
-            'field of characteristic 0, one-step error bounds over R, exactness/second-order error of the gradient, '
-            'stationary images are critical points) are re-checked by the Lean kernel against them; relaxation to the '
-            'saddle is partial (explored on the implementation).',
+            'field of characteristic 0, one-step error bounds over R, exactness/second-order error of the gradient at '
+            'single points and row by row on arrays, stationary images are critical points) are re-checked by the Lean '
+            'kernel against them. The path object (coord, energyfxn, gradientfxn, gradientkwargs, integratorfxn) is a Lean '
+            'state machine whose reads are proved to depend on the current field values only, with unit tangents, '
+            'monotone arc coordinates, critical points = fixed points of a step; it is tied to BasePath/ISMPath by '
+            'operation sequences on one object. Relaxation to the saddle is partial (explored on the implementation).',
     'note': 'Trusted: Lean kernel + propext/Classical.choice/Quot.sound; the AST translator (harness/translate.py, '
-            'props/c20.py); numpy matmul/einsum; float rounding bounded by rtol 1e-9 in the correspondence. '
-            'Convergence of relax() is not proved (iterative float + spline code): partial.',
-    'technique': 'Lean 4 theorems over translator-generated definitions + differential correspondence',
+            'props/c20.py); numpy matmul/einsum/norm, scipy CubicSpline at its knots; float rounding bounded by derived '
+            'first-order bounds in the correspondence. Convergence of relax() and the re-spaced interior images of a '
+            'step are not proved (iterative float + spline code): partial.',
+    'technique': 'Lean 4 theorems over translator-generated definitions + state-machine correspondence',
 }
